@@ -1,3 +1,4 @@
 -- root of the library: importing a property module pulls in its model and helper lemmas
 import GnarkVerif.Props.C15
 import GnarkVerif.Props.C01
+import GnarkVerif.Props.C09
